@@ -1,7 +1,7 @@
 (* C18 — foreign C functions see the published value representation. *)
 From Coq Require Import List Bool Arith NArith.
 Import ListNotations.
-From DDP Require Import Gen.AbiTables Lower.Abi Lower.AbiProofs.
+From DDP Require Import Gen.AbiTables Lower.Abi Lower.AbiProofs Lower.TypeSpelling Lower.TypeSpellingProofs.
 
 (* The signature the compiler declares for a function (in the declaring module through VisitFuncDecl, in
    an importing module through declareImportedFuncDecl — the same transcription) is, parameter by
@@ -113,6 +113,17 @@ Theorem C18_generic_extern_call_ownership : forall (s : signature) (gs : list bo
 Proof. exact generic_extern_call_ownership. Qed.
 Print Assumptions C18_generic_extern_call_ownership.
 
+(* Frontend tie: every spelling a declaration can use for a parameter type - singular/plural, Liste/Listen, with and
+   without Referenz, parenthesised by-value forms, for the five primitives, Text, Variable and any named type (Kombination,
+   typedef, alias, type parameter) - parses to exactly the type and the IsReference flag it spells, consumes exactly its own
+   tokens and raises no diagnostic; the parameter table the lowering starts from is the declared one. *)
+Theorem C18_declared_spelling_parses : forall (b : sbase) (f : form) (rest : list tok),
+  type_ends rest ->
+  parse_reference_type (spelled b f ++ rest) =
+    Some {| pr_ty := meant_ty b f; pr_ref := meant_ref f; pr_diag := 0; pr_rest := rest |}.
+Proof. exact declared_spelling_parses. Qed.
+Print Assumptions C18_declared_spelling_parses.
+
 (* ---- non-vacuity ------------------------------------------------------------------------------ *)
 Definition ex_paar : ty := TStruct [TPrim PZahl; TText].
 Definition ex_sig : signature :=
@@ -185,3 +196,11 @@ Example C18_ex_generic_plan :
   [AllocRet; PassValue 0; Copy 1; PassRef 2; PassRef 3; Call; ResultTemp; FreeArgCast 2] /\
   run (init_state []) [AllocRet; PassValue 0; Copy 1; PassRef 2; PassRef 3; Call; ResultTemp; FreeArgCast 1] = None.
 Proof. split; vm_compute; reflexivity. Qed.
+
+(* "Variablen Listen Referenz" is a reference to a list of Variable; without the word Referenz it is diagnosed *)
+Example C18_ex_spelling :
+  parse_reference_type [TkVariablen; TkListen; TkReferenz; TkOther] =
+    Some {| pr_ty := SList SVariable; pr_ref := true; pr_diag := 0; pr_rest := [TkOther] |} /\
+  type_ends [TkOther] /\
+  match parse_reference_type [TkVariablen; TkListen; TkOther] with Some p => pr_diag p = 1 | None => False end.
+Proof. split; [reflexivity |]. split; [right; eexists; reflexivity | reflexivity]. Qed.
